@@ -756,10 +756,16 @@ pub fn check(ctx: &Ctx) -> Vec<PartReport> {
             require: vec![("float", (n as u64) / 50), ("odd-keys", (n as u64) / 20), ("value-path", (n as u64) / 10)],
         },
     ));
+    if ctx.tier == crate::engine::Tier::Thorough && !ctx.stop.load(std::sync::atomic::Ordering::Relaxed) {
+        out.push(crate::fuzz::run(ctx, "C11", "cjson_diff", (5_000_000f64 * ctx.scale) as u64, 2048));
+    }
     out
 }
 
 pub fn replay(_ctx: &Ctx, part: &str, case: &Value) -> Outcome {
+    if let Some(t) = part.strip_prefix("fuzz:") {
+        return crate::fuzz::replay(t, case["input_hex"].as_str().unwrap_or(""));
+    }
     match part {
         "keysets" => {
             let seen = Mutex::new(HashMap::new());
